@@ -39,6 +39,7 @@ PROPS = {
         'verus': {'forest_lib': None,
                   'tree_delete': ['Writer::delete_items_in_file', 'Writer::fit_in_descendant', 'lemma_del_common', 'lemma_del_fit', 'lemma_del_one_side_empty', 'lemma_del_keep'],
                   'tree_insert': TREE_INSERT,
+                  'leafs_new': ['ImmutableLeafs::new'],
                   'writer_scans': ['Writer::item_indices', 'Writer::reset_and_retrieve_updated_items', 'Writer::clear_db_and_create_a_single_leaf', 'clear_tree_nodes']},
         'assumed_fns': [('src/parallel.rs', "impl<'a, DE: BytesEncode<'a>> TmpNodes<DE>", 'put'), ('src/parallel.rs', "impl<'a, DE: BytesEncode<'a>> TmpNodes<DE>", 'remove'),
                         ('src/parallel.rs', "impl<'a, DE: BytesEncode<'a>> TmpNodes<DE>", 'remap'), ('src/parallel.rs', 'impl TmpNodesReader', 'to_insert'),
@@ -111,6 +112,15 @@ PROPS = {
                     'RoaringBitmap::select is injective and returns members (axiom_nth, admitted)',
                     'rayon and the two `unsafe impl Sync` are trusted: the per-root closures share only the id generator and read-only frozen views'],
         'not_decided': ['the second sentence of C13 (a build yields a C01 forest for every thread-pool size) beyond: the contracts of the per-tree functions never depend on the order in which other threads run'],
+    },
+    'C14': {
+        'verus': {'leafs_new': ['ImmutableLeafs::new'], 'tree_insert': TREE_INSERT,
+                  'tree_delete': ['Writer::delete_items_in_file', 'lemma_del_fit', 'lemma_del_one_side_empty', 'lemma_del_keep', 'lemma_del_common']},
+        'assumed_fns': FROZEN_ASSUMED,
+        'trusted': ['available_memory is an unconstrained Option<usize> / usize in every contract: what is proved holds for every value including 0',
+                    'pages_allowed_ (the f64 floor of memory / page_size) and the page bookkeeping are uninterpreted: the partition and progress results do not depend on them'],
+        'not_decided': ['termination of the batching loops of insert_items_in_current_trees / incremental_index_large_descendants and of make_tree_in_file (their loop drivers are not under contract yet); what is proved is the per-pass progress of ImmutableLeafs::new (a non-empty candidate set always yields a non-empty selection) and that no candidate is lost or duplicated',
+                        'KNOWN LIMITATION observed by an independent agent on the unchanged tree: with split_after (or dimensions) >= 200 and a tiny available_memory a bucket larger than the capacity is re-queued forever (the 200-item sample fits one bucket): termination is outside what these contracts decide'],
     },
     'C15': {
         'verus': {'tree_count': ['Writer::fit_in_descendant', 'target_n_trees'], 'writer_scans': ['Writer::clear_db_and_create_a_single_leaf'],
